@@ -43,6 +43,20 @@ def _zoo_expr(zname):
     }[zname]
 
 
+_OTHER = {}
+
+
+def _other_category(db, qt, c):
+    """another category of the same quantity type (None when there is none)"""
+    key = (id(db), qt)
+    if key not in _OTHER:
+        _OTHER[key] = sorted(k for k, info in db.categories_to_quantity_types.items() if info.quantity_type == qt)
+    for k in _OTHER[key]:
+        if k != c:
+            return k
+    return None
+
+
 def check_pair(part, db, qt, u, v, c, full=True):
     """All routes for one (qt, u, v, c)."""
     conv = db.Convert
@@ -227,6 +241,30 @@ def check_pair(part, db, qt, u, v, c, full=True):
         flat = [y for t in g for y in t]
         if type(g) is not outer or not all(isinstance(t, tuple) for t in g) or not all(same(a, b, 0) for a, b in zip(flat, r0)) or len(flat) != 4:
             bad("Array.GetValues(%s of tuples)" % outer.__name__, repr(g), r0)
+    # ... rows of different lengths keep their shape
+    for outer in (list, tuple):
+        n += 1
+        rag = outer([(X[0],), (X[1], X[2]), (X[3],)])
+        try:
+            g = Array(rag, u, c).GetValues(v)
+            shape = [len(t) for t in g]
+            flat = [y for t in g for y in t]
+        except Exception as ex:
+            g, shape, flat = repr(ex), None, []
+        if shape != [1, 2, 1] or not all(same(a, b, 0) for a, b in zip(flat, r0)):
+            bad("Array.GetValues(%s of tuples of different lengths)" % outer.__name__, repr(g), r0)
+    # ... a copy in another unit AND another category of the type still carries the converted amount
+    c2 = _other_category(db, qt, c)
+    if c2 is not None:
+        for i, x in enumerate(X):
+            n += 1
+            cp = Scalar(x, u, c).CreateCopy(unit=v, category=c2)
+            if not same(cp.value, r0[i], i) or cp.GetCategory() != c2 or cp.GetUnit() != v:
+                bad("Scalar.CreateCopy(unit, other category %s)" % c2, repr(cp), r0[i])
+        n += 1
+        acp = Array(list(X), u, c).CreateCopy(unit=v, category=c2)
+        if not all(same(a, b, 0) for a, b in zip(acp.GetValues(), r0)) or acp.GetCategory() != c2 or acp.GetUnit() != v:
+            bad("Array.CreateCopy(unit, other category %s)" % c2, repr(acp), r0)
     # R7 FixedArray
     fa = FixedArray(4, q_u, list(X))
     for i in (0, 2, -1):
